@@ -268,13 +268,20 @@ def solve_lp(
     # objective evaluated at the returned point whenever there is one.
     objective_value: float | None = None
     if result.fun is not None:
+        # Fallback (no point returned, or the tree evaluation fails): the
+        # solver's number with the negation for maximization undone
+        objective_value = float(result.fun)
+        if lp_data.sense == "max":
+            objective_value = -objective_value
         if values:
-            objective_value = float(problem.objective.evaluate(values))
-        else:
-            # No point returned: undo the negation for maximization
-            objective_value = float(result.fun)
-            if lp_data.sense == "max":
-                objective_value = -objective_value
+            try:
+                import numpy as np
+
+                objective_value = float(
+                    np.asarray(problem.objective.evaluate(values)).item()
+                )
+            except Exception:
+                pass
 
     # Build informative message for unbounded/infeasible cases
     message = result.message if hasattr(result, "message") else ""
